@@ -16,7 +16,11 @@ TECHNIQUE = ('decision-table extraction: the AST of each (small, table-like) dec
              'as a template and split at its top-level && / || operators; the resulting table is compared with the specification table of the exception '
              'declarations; clang is used as a parser for the two C helpers (typestate of the error indicator / GIL bracket); emitted-call arity (I5) for the helpers involved; '
              'C32-TYPED: the emitted sentinel comparison (casts resolved through the MRO of the type class) is evaluated with C conversion semantics over the complete '
-             'lattice of integer ranks x signedness and float/double x representable / non-representable sentinels')
+             'lattice of integer ranks x signedness and float/double x representable / non-representable sentinels; '
+             'fourth round: p_exception_value_clause interpreted on a model scanner for every clause shape (PARSE); CFuncDeclaratorNode.analyse evaluated over clause kind x return kind x default error value x '
+             'extern / pxd / cdef-class / pointer declarator x legacy_implicit_noexcept (DECL, 576 points); _is_exception_compatible_with as a decision table callee specification x declared specification against '
+             'the semantics of the call-side test (COMPAT); boolean decision table of the is_temp marking that gates the call-side test (TEMP); dominance of assure_gil before the error-exit reports (ERRGIL); '
+             'name/position agreement of flag arguments of the emitted helper calls (ARGNAME); error-indicator typestate at the reporter calls of __Pyx_WriteUnraisable (CHELP)')
 DECIDES = ('C32-CALL: for all 72 points of (object | memoryview | other return) x exception_check in {False, True, "+"} x exception_value {unset, set} x GIL {held, released} x '
            'result variable {given, not given}, the statement SimpleCallNode emits for a C function call tests exactly: object -> !result; memoryview -> the slice error '
            'condition; except value -> sentinel test; except? value -> sentinel && PyErr_Occurred(); except * -> PyErr_Occurred(); noexcept -> nothing; except + -> the C++ '
@@ -36,8 +40,15 @@ DECIDES = ('C32-CALL: for all 72 points of (object | memoryview | other return) 
            '(CIntType, CFloatType) x C type (unsigned/signed char, short, int, long, long long; float, double) x sentinel (-1, 0, 1, -2; -1.0, 0.1, 0.0, NaN where the '
            'NaN-aware form is selected): the emitted comparison, with cast_code / sign_and_name resolved through the class and the NaN macro expanded from Exceptions.c, '
            'is TRUE for the value the callee stores ((T)v, conversion by assignment) and FALSE for every other probed value of T under C11 integer promotion / usual '
-           'arithmetic conversions (an uncast -1 never equals a promoted unsigned char 255; a double 0.1 never equals a float 0.1f).')
-NOT_DECIDED = ('that the body of a function really jumps to the error label on every raise; which sentinel values the declaration analysis accepts for a return type (and sentinels for enum / pointer / ctuple / complex return types in C32-TYPED); '
+           'arithmetic conversions (an uncast -1 never equals a promoted unsigned char 255; a double 0.1 never equals a float 0.1f). '
+           'C32-PARSE: p_exception_value_clause maps nothing / noexcept / except v / except? v / except * / except + / except +* / except +Name (x extern, own) to the (value, check, explicit) triple of the '
+           'language table and consumes the clause. C32-DECL: CFuncDeclaratorNode.analyse hands CFuncType exactly the declared specification: explicit clauses unchanged, an implicit error value only together '
+           'with the PyErr_Occurred() check, noexcept only when declared or under legacy_implicit_noexcept without an explicit clause, nothing for object returns. '
+           'C32-COMPAT: a callee specification S is accepted for a declared specification O (function pointer assignment, overridden C method) only when O\'s call-side test detects exactly S\'s errors. '
+           'C32-TEMP: analyse_c_function_call marks every call of a function type with an exception value or check as a temp (only temps get the error test). '
+           'C32-ERRGIL: put_add_traceback / put_unraisable of the function error exit are preceded by assure_gil(\'error\'). C32-ARGNAME: flag arguments of the emitted C32 helper calls sit at the C parameter of '
+           'the same name. C32-CHELP (extended): PyErr_WriteUnraisable / PyErr_PrintEx run with the error indicator set.')
+NOT_DECIDED = ('that the body of a function really jumps to the error label on every raise; which sentinel VALUES the declaration analysis accepts for a return type (C32-DECL decides the kind of specification, not the value; sentinels for enum / pointer / ctuple / complex return types in C32-TYPED); the exceptval / noexcept decorators of pure-Python mode (C38); '
                'propagation through cpdef wrappers and function pointers; that the GIL really is held where funcstate.gil_owned says so (assure_gil bookkeeping of the error exit); '
                'the run-time behaviour of the compiled program (no C is compiled or run).')
 ASSUMPTIONS = ['error_value() results and ExceptionValue objects are never None/empty when an exception value is declared',
@@ -83,7 +94,17 @@ MUTATIONS = [
     ('Cython/Compiler/PyrexTypes.py', 'exception_test_code: cast moved to the result: `{self.type.cast_code(result_cname)} == {self}`', 'C32-TYPED typed:ExceptionValue.exception_test_code(CIntType)'),
     ('Cython/Compiler/PyrexTypes.py', 'exception_test_code: `(char){result_cname} == (char){self}` (narrowing on both sides: int 255 forges an exception)', 'C32-TYPED (no-forgery direction)'),
 ]
-SILENT_EDITS = [     # behaviour-preserving edits tried on the scratch copy: all 12 stayed silent (exit 0)
+MUTATIONS += [
+    # fourth round: stored under /verif/mutants/C32/<name>/ and replayed by the thorough tier
+    ('Cython/Compiler/Parsing.py', 'parse-star-nocheck / parse-question-nocheck / parse-default-swapped / parse-noexcept-check', 'C32-PARSE'),
+    ('Cython/Compiler/Nodes.py', 'decl-check-dropped-with-value / decl-legacy-explicit / decl-implicit-value-unchecked', 'C32-DECL'),
+    ('Cython/Compiler/PyrexTypes.py', 'compat-missing-check / compat-noexcept-target / compat-value-ignored', 'C32-COMPAT'),
+    ('Cython/Compiler/ExprNodes.py', 'call-istemp-and: is_temp only for `except? v`', 'C32-TEMP'),
+    ('Cython/Compiler/Nodes.py', 'def-unraisable-no-gil: assure_gil dropped before put_unraisable', 'C32-ERRGIL'),
+    ('Cython/Compiler/Code.py', 'unraisable-flag-swapped: (nogil, full_traceback) interchanged in the emitted call', 'C32-ARGNAME'),
+    ('Cython/Utility/Exceptions.c', 'chelp-restore-dropped: __Pyx_ErrRestore before PyErr_WriteUnraisable removed', 'C32-CHELP'),
+]
+SILENT_EDITS = [     # behaviour-preserving edits tried on the scratch copy: all stayed silent (exit 0); the fourth-round ones are mutants/C32/ok-*
     'C32-TYPED: exception_test_code with operands swapped and parenthesised; with `({self.type.empty_declaration_code()}){self}` instead of cast_code; with BOTH sides '
     'passed through self.type.cast_code; if/else turned into a fall-through `"%s == %s" % (result_cname, cmp_val)`; CType.error_condition using self.cast_code(...) '
     'instead of the hand-written `(%s)%s`',
@@ -1202,6 +1223,15 @@ def unraisable_problems(text, name='__Pyx_WriteUnraisable'):
             probs.add('returns with the error indicator still set on a path (calls: %s): the "unraisable" exception leaks into the code that runs after the noexcept function' % ' '.join(seq))
         if 'PyErr_WriteUnraisable' not in seq:
             probs.add('has a path that never calls PyErr_WriteUnraisable: the exception disappears silently')
+        # the reporters print the CURRENT exception: the error indicator must be set when they run (fourth round)
+        cur = 'set'
+        for c in seq:
+            if c in ('PyErr_WriteUnraisable', 'PyErr_PrintEx', 'PyErr_Print') and cur != 'set':
+                probs.add('calls %s while the error indicator is clear (the exception was fetched and not restored; calls: %s): nothing is reported and the fetched exception objects leak' % (c, ' '.join(seq)))
+            if c in CLEARS:
+                cur = 'clear'
+            elif c in SETS:
+                cur = 'set'
         py = [i for i, c in enumerate(seq) if c not in ('PyGILState_Ensure', 'PyGILState_Release')]
         ens = [i for i, c in enumerate(seq) if c == 'PyGILState_Ensure']
         rel = [i for i, c in enumerate(seq) if c == 'PyGILState_Release']
@@ -1310,4 +1340,6 @@ def run(ctx):
     from ..rules import functype_copy, sC32
     rules.append(functype_copy.rule_copy(ctx))
     rules.append(sC32.rule_typed(ctx))
+    # fourth round: the declaration side (parser table, declaration analysis, signature compatibility) and call/def-side couplings
+    rules += [sC32.rule_parse(ctx), sC32.rule_decl(ctx), sC32.rule_compat(ctx), sC32.rule_temp(ctx), sC32.rule_errgil(ctx), sC32.rule_argname(ctx, HELPERS)]
     return rules
